@@ -671,12 +671,43 @@ func runClear(it *SecItem, ks *sut.KeySet, dir string, inst *sut.Instance, marke
 	} else if ierr == nil || accepted > 0 {
 		add("wrong-key", "index rebuild with a different private key succeeded (error %v, %d headers accepted)", ierr, accepted)
 	}
-	// restore with the wrong key
-	c := it.Cfg
-	wi, err := sut.OpenPaths(inst.Drive, inst.DB, dir, c, ks, nil)
-	if err == nil {
-		defer wi.Close()
+	// a filesystem over the owner's index, but with the stranger's key: reading any non-empty file must fail
+	{
+		c := it.Cfg
+		c.ReadKeySlot = "other"
+		c.ReadOnly = true
+		idx := filepath.Join(dir, "owner-index-copy.sqlite")
+		if data, err := os.ReadFile(inst.DB); err == nil && os.WriteFile(idx, data, 0o644) == nil {
+			if wi, err := sut.OpenPaths(inst.Drive, idx, dir, c, ks, nil); err == nil {
+				if _, ierr := wi.FS.Initialize("/", os.ModePerm); ierr == nil {
+					res.Checks++
+					res.Attacks["wrong-key"]++
+					v, _ := sut.Walk(wi.FS, sut.ViewOpts{ReadContent: true, KeepData: true})
+					for _, pth := range v.SortedPaths() {
+						e := v[pth]
+						if e.Kind == "file" && e.Size > 0 && e.RdErr == "" {
+							add("wrong-key", "reading %s (%d bytes) through a filesystem that holds a different private key succeeded: %s", pth, e.Size, describe(e.Data))
+						}
+					}
+					// ... also with the reads a caller would use
+					for _, pth := range v.SortedPaths() {
+						if e := v[pth]; e.Kind == "file" && e.Size > 0 {
+							if f, err := wi.FS.Open(pth); err == nil {
+								all, rerr := io.ReadAll(f)
+								_ = f.Close()
+								if rerr == nil {
+									add("wrong-key", "io.ReadAll of %s through a filesystem that holds a different private key returned %d bytes without error", pth, len(all))
+								}
+							}
+							break
+						}
+					}
+				}
+				wi.Close()
+			}
+		}
 	}
+	// restore with the wrong key
 	res.Checks++
 	res.Attacks["wrong-key"]++
 	rows, _ := sut.Rows(inst.DB)
